@@ -191,6 +191,15 @@ CHECKS["C11"] = dict(
            rapid_part("resume", "compose", "TestC11Resume", 800, 6000, race=False, replay_test="TestC11ResumeReplay", replay_reps=10)],
 )
 
+CHECKS["C17"] = dict(
+    technique="property-based testing (rapid) of the tools node with gated tools released in a generated completion order; oracle = reference answer list by call index, stream joined position-wise, error contract via errors.Is/As, per-call callback units; under the race detector",
+    level_text="Generated tool sets (3-5 tools: invokable-only, streamable-only, both; 1-4 chunks) and call lists (1-6 calls, repeated tools, unknown names) with every tool call blocked at a gate keyed by its tool call id and released in a generated order after all calls are observed waiting, so that completion order is owned by the harness; failing tools (error at call, error item mid-stream, panic), unknown-tool handler present or absent; standalone Invoke/Stream and inside a graph under Invoke/Stream/Collect/Transform. Oracle: N calls give N tool messages, the i-th with the i-th call's id and the named tool's output on that call's arguments (or the unknown-tool handler's answer); the streamed form joined position-wise equals the same list; a failing tool fails the call and errors.Is/As recover an error of a failing call; a panicking tool inside a graph becomes an error; unknown name without handler is an error; a recording handler sees exactly one start and one end per tool call carrying the tool's name. Built with -race.",
+    level_note="A panic of the first (inline) tool call in a standalone ToolsNode.Invoke escapes to the caller by design of the statement (only the enclosing run is promised to fail); it is counted, not judged.",
+    rule="rapid draws tools, calls, handler presence, embedding, paradigm and completion order; non-trivial = >= 3 calls including a repeated tool, completion order different from call order, >= 2 tool kinds; distinct = FNV-1a of case JSON",
+    assumptions=["tool outputs are a deterministic function of (tool name, arguments)"],
+    parts=[rapid_part("rapid", "compose", "TestC17", 3000, 30000, race=True, replay_test="TestC17Replay", replay_reps=3)],
+)
+
 # properties not claimed (with reason); everything else not in CHECKS is "not built yet"
 NOT_APPLICABLE = {}
 
